@@ -281,8 +281,11 @@ def check_release(case, rec):
                 try:
                     L2.backward()
                 except mg.errors.InvalidBackprop:
+                    # refused (the kept tensor's own graph was partially cleared).  The refusal happens part-way
+                    # through the pass and MyGrad's advice is to clear every graph and start over: what later
+                    # statements do in that state is not part of any property, so the follow-up sequence ends here
                     del L2, z, w, t, pool2
-                    continue
+                    break
                 for nm, vt, want in (("z", z, cw), ("w", w, cw.reshape(w.shape)), ("t", t, cw.reshape(w.shape)[::-1])):
                     gv = vt.grad
                     if gv is None:
@@ -349,7 +352,7 @@ def check_release(case, rec):
                     # by the first backward: refusing loudly is allowed (C09); nothing to compare
                     rec_label = "backward2_refused"
                     del L2, x
-                    continue
+                    break  # (see chain_on_kept: nothing is asserted after a refused backward)
                 g1 = x.grad
                 if x.base is None and x.creator is None:
                     if g1 is None or not np.array_equal(g1, w.astype(x.dtype)):
